@@ -229,7 +229,7 @@ func (w *World) finish() {
 	// a call that is still outstanding on a running server long after everything is quiet
 	bound := w.convergenceBound()
 	for _, c := range w.cl.calls {
-		if c.ReturnSeq == 0 && !c.Crashed && w.now()-c.InvokeAt > bound {
+		if c.ReturnSeq == 0 && !c.Crashed && w.now()-c.InvokeAt > bound && !w.or.restoreAborted {
 			n := w.nodes[c.Node]
 			if n.inc != nil && n.inc.n == c.Inc && n.inc.alive && !n.inc.shutdown {
 				v := w.violate("C17", "C17/future-unresolved-while-running", "%s on s%d#%d issued %v ago has not resolved although the server is running and all faults stopped long ago",
